@@ -108,7 +108,6 @@ pub fn run(args: &Args) -> Report {
             v.push(n.to_string());
             v
         };
-        rep.count("bytes_in_largest_input", 0);
         rep.count("huge_input_bytes", n as u64);
         rep.seen("size_class", if n > (1usize << 32) { ">2^32" } else { ">2^31" });
         for (mi, mode) in modes.iter().enumerate() {
